@@ -55,15 +55,41 @@ def guarded_phase(ctx, name, fn):
     on the unchanged tree these phases run clean, so it means the implementation produced something the model of
     the code does not produce (wrong shapes, missing attributes, out-of-range indices …). It is recorded as a broken
     correspondence (the failing-input search still decides whether a concrete violating input is reported)."""
+    # phase watchdog: a phase that runs far beyond its budget means a call into the implementation does not return
+    # (the per-call watchdogs of the harness modules catch most of these; this is the safety net). The timer
+    # interrupts the main thread; pure-Python loops (interpreted engine) are interruptible.
+    import _thread
+    import threading
+    limit = float(os.environ.get("D3_PHASE_LIMIT_S", "600" if ctx.tier == "quick" else "14400"))
+    fired = []
+
+    def _fire():
+        fired.append(True)
+        _thread.interrupt_main()
+    timer = threading.Timer(limit, _fire)
+    timer.daemon = True
+    timer.start()
     try:
         fn(ctx)
     except core.Infra:
         raise
+    except KeyboardInterrupt:
+        if not fired:
+            raise
+        ctx.broke("correspondence", "phase watchdog: " + name,
+                  "the %s phase did not finish within %.0f s (quick runs take well under two minutes on the unchanged "
+                  "tree): a call into the implementation does not return; interrupted at:\n%s"
+                  % (name, limit, traceback.format_exc()[-1500:]))
+        ctx.fail("non-termination during " + name, {"phase": name, "limit_s": limit},
+                 "no return within %.0f s" % limit, "every call returns (C19) and the check completes",
+                 "phase watchdog")
     except Exception as e:  # noqa
         tb = traceback.format_exc()
         ctx.broke("correspondence", "harness exception in " + name,
                   "%s: %s\n%s" % (type(e).__name__, e, tb[-1200:]))
         ctx.notes.append("exception in %s phase: %s" % (name, type(e).__name__))
+    finally:
+        timer.cancel()
 
 
 def run(ctx, mod, a):
@@ -104,8 +130,10 @@ def run(ctx, mod, a):
     else:
         ctx.notes.append("model does not build: correspondence skipped, search only")
     # source fingerprints of the modelled functions: a changed function multiplies the search budget
-    changed, unsnapped = core.changed_sources(ctx.prop, getattr(mod, "MODELLED", []))
-    ctx.extra["modelled_functions"] = len(getattr(mod, "MODELLED", []))
+    modelled = [m for m in getattr(mod, "MODELLED", []) if isinstance(m, str) and m.count(":") == 1] \
+        or core.anchor_functions(ctx.prop)
+    changed, unsnapped = core.changed_sources(ctx.prop, modelled)
+    ctx.extra["modelled_functions"] = len(modelled)
     ctx.extra["modelled_functions_changed_since_snapshot"] = changed
     if unsnapped:
         ctx.extra["modelled_functions_without_snapshot"] = unsnapped
